@@ -106,7 +106,14 @@ func (m DistributedExecutionOptimizer) Optimize(plan parser.Expr) parser.Expr {
 			if aggr.Op == parser.COUNT {
 				localAggregation = parser.SUM
 			}
-			subQueries := m.makeSubQueries(current, engines, DuplicatesAllowed)
+			// topk and bottomk return series of their operand, not one series
+			// per group: equal labels coming from two engines are duplicates
+			// of the operand, which a single engine would have rejected.
+			duplicates := DuplicatesAllowed
+			if aggr.Op == parser.TOPK || aggr.Op == parser.BOTTOMK {
+				duplicates = DuplicatesPerStep
+			}
+			subQueries := m.makeSubQueries(current, engines, duplicates)
 			*current = &parser.AggregateExpr{
 				Op:       localAggregation,
 				Expr:     subQueries,
